@@ -376,3 +376,113 @@ Proof.
   { unfold sigs_of. rewrite map_map. apply map_ext. intros [[? ?] ?]. reflexivity. }
   rewrite Hs, strip_fold, strip_body_ok. reflexivity.
 Qed.
+
+(* ------------------------------------------------------------------ reordering method definitions *)
+From Coq Require Import Permutation.
+
+Definition bump (k : nat) (s : st) : st := mkSt (sregs s) (slocals s) (serrs s + k).
+
+Lemma bump_expr : forall fx sigs e s k,
+  check_expr fx sigs (bump k s) e = (bump k (fst (check_expr fx sigs s e)), snd (check_expr fx sigs s e)).
+Proof.
+  induction e; intros s k; cbn [check_expr].
+  - reflexivity.
+  - cbn [bump slocals]. destruct (lookup (slocals s) x); reflexivity.
+  - change (set_regs (bump k s) (mkRegs None None MethodMode)) with (bump k (set_regs s (mkRegs None None MethodMode))).
+    rewrite IHe. destruct (check_expr fx sigs (set_regs s (mkRegs None None MethodMode)) e) as [s2 t]. reflexivity.
+  - apply IHe.
+  - rewrite IHe. destruct (check_expr fx sigs s e) as [s1 t]. cbn. destruct t; reflexivity.
+  - destruct (lookup sigs m); reflexivity.
+Qed.
+
+Lemma bump_stmt : forall fx sigs c s k,
+  check_stmt fx sigs (bump k s) c = (bump k (fst (check_stmt fx sigs s c)), snd (check_stmt fx sigs s c)).
+Proof.
+  intros fx sigs [y e|y e|e|e] s k; cbn [check_stmt]; try apply bump_expr;
+    rewrite bump_expr; destruct (check_expr fx sigs s e) as [s1 t]; cbn.
+  - destruct (lookup (slocals s1) y); [destruct (assignable t t0)|]; reflexivity.
+  - destruct (lookup (slocals s1) y); [destruct (assignable t t0)|]; reflexivity.
+  - destruct (rret (sregs s1)); [destruct (assignable t t0)|]; reflexivity.
+Qed.
+
+Lemma bump_body : forall fx sigs b s k t0,
+  check_body fx sigs (bump k s) t0 b = (bump k (fst (check_body fx sigs s t0 b)), snd (check_body fx sigs s t0 b)).
+Proof.
+  induction b as [|c b IH]; intros s k t0; cbn [check_body]; [reflexivity|].
+  rewrite bump_stmt. destruct (check_stmt fx sigs s c) as [s1 t]. cbn. apply IH.
+Qed.
+
+Definition delta (sigs : list (name * ty)) (m : mdef) : nat := serrs (check_method true sigs top m).
+
+Lemma method_delta : forall sigs s m,
+  check_method true sigs s m = mkSt (sregs s) (slocals s) (delta sigs m + serrs s).
+Proof.
+  intros sigs s [[n rt] b]. unfold delta, check_method. cbn [leave top serrs sregs slocals].
+  change (mkSt (mkRegs (Some rt) None MethodMode) [] (serrs s))
+    with (bump (serrs s) (mkSt (mkRegs (Some rt) None MethodMode) [] 0)).
+  rewrite bump_body.
+  destruct (check_body true sigs (mkSt (mkRegs (Some rt) None MethodMode) [] 0) TNil b) as [s2 bt]. cbn.
+  destruct (assignable bt rt); reflexivity.
+Qed.
+
+Lemma fold_delta : forall sigs ms s,
+  fold_left (check_method true sigs) ms s =
+  mkSt (sregs s) (slocals s) (list_sum (map (delta sigs) ms) + serrs s).
+Proof.
+  induction ms as [|m ms IH]; intros s; cbn [fold_left map list_sum fold_right].
+  - destruct s; reflexivity.
+  - rewrite IH, method_delta. cbn [sregs slocals serrs]. f_equal. rewrite Nat.add_assoc, (Nat.add_comm (list_sum _) (delta sigs m)). reflexivity.
+Qed.
+
+Lemma list_sum_perm : forall l l', Permutation l l' -> list_sum l = list_sum l'.
+Proof. induction 1; unfold list_sum in *; cbn in *; lia. Qed.
+
+Definition sigs_equiv (a b : list (name * ty)) : Prop := forall m, lookup a m = lookup b m.
+
+Lemma sigs_expr : forall fx a b, sigs_equiv a b -> forall e s, check_expr fx a s e = check_expr fx b s e.
+Proof.
+  intros fx a b H. induction e; intros s; cbn [check_expr]; auto.
+  - now rewrite IHe.
+  - now rewrite IHe.
+  - now rewrite H.
+Qed.
+
+Lemma sigs_stmt : forall fx a b, sigs_equiv a b -> forall c s, check_stmt fx a s c = check_stmt fx b s c.
+Proof. intros fx a b H [y e|y e|e|e] s; cbn [check_stmt]; now rewrite (sigs_expr fx a b H). Qed.
+
+Lemma sigs_body : forall fx a b, sigs_equiv a b -> forall bd s t0, check_body fx a s t0 bd = check_body fx b s t0 bd.
+Proof.
+  intros fx a b H. induction bd as [|c bd IH]; intros s t0; cbn [check_body]; [reflexivity|].
+  rewrite (sigs_stmt fx a b H). destruct (check_stmt fx b s c). apply IH.
+Qed.
+
+Lemma sigs_method : forall fx a b, sigs_equiv a b -> forall s m, check_method fx a s m = check_method fx b s m.
+Proof. intros fx a b H s [[n rt] bd]. unfold check_method. now rewrite (sigs_body fx a b H). Qed.
+
+Lemma lookup_perm : forall l l', Permutation l l' -> NoDup (map fst l) -> sigs_equiv l l'.
+Proof.
+  induction 1; intros Hn m.
+  - reflexivity.
+  - destruct x as [y t]. cbn. inversion Hn; subst. destruct (N.eqb m y); auto. now apply IHPermutation.
+  - destruct x as [a ta], y as [b tb]. cbn in *. inversion Hn as [|? ? Hin _]; subst.
+    destruct (N.eqb m b) eqn:E1; destruct (N.eqb m a) eqn:E2; auto.
+    apply N.eqb_eq in E1. apply N.eqb_eq in E2. subst. exfalso. apply Hin. left. reflexivity.
+  - rewrite IHPermutation1; auto. apply IHPermutation2.
+    eapply Permutation_NoDup; [apply Permutation_map; exact H | exact Hn].
+Qed.
+
+Theorem reorder_methods : forall ms ms' mn,
+  Permutation ms ms' -> NoDup (map fst (sigs_of ms)) ->
+  errors true (mkProg ms' mn) = errors true (mkProg ms mn).
+Proof.
+  intros ms ms' mn Hp Hn. unfold errors, check_prog. cbn [methods main].
+  assert (He : sigs_equiv (sigs_of ms') (sigs_of ms)).
+  { intro m. symmetry. apply (lookup_perm (sigs_of ms) (sigs_of ms')); auto.
+    unfold sigs_of. now apply Permutation_map. }
+  rewrite (sigs_body true _ _ He).
+  rewrite !fold_delta.
+  assert (Hs : list_sum (map (delta (sigs_of ms')) ms') = list_sum (map (delta (sigs_of ms)) ms)).
+  { rewrite (list_sum_perm _ _ (Permutation_map (delta (sigs_of ms')) (Permutation_sym Hp))).
+    f_equal. apply map_ext. intro m. unfold delta. now rewrite (sigs_method true _ _ He). }
+  now rewrite Hs.
+Qed.
